@@ -338,11 +338,13 @@ def run_case(res, rec, case, spec, opt, params0, lattice):
         L = list(lattice)
         assigns = [np.asarray([L[(3 * i + j) % len(L)] for j in range(3)], dtype=np.float32) for i in range(-(-len(L) // 3))]
     last = None
+    walk = []
     for i, t32 in enumerate(assigns):
         tx.value = jnp.asarray(t32)
         last = check_state(("t", i), t32)
         if case.get("note"):
             res.note([case, np.asarray(t32).tolist(), np.asarray(last).tolist()])
+            walk.append({"t": np.asarray(t32).tolist(), "original_value": np.asarray(ox.value).tolist(), "new_log_prob": np.asarray(last).tolist()})
     tcur = assigns[-2] if len(assigns) > 1 else assigns[-1]
     tx.value = jnp.asarray(tcur)
     check_state(("t", "back"), tcur)
@@ -358,6 +360,7 @@ def run_case(res, rec, case, spec, opt, params0, lattice):
             model.vars[f"b_{k}"].value = jnp.float32(balt[k])
             check_state(("b", k), tcur)
     res.executions += 1
+    return walk
 
 
 def run_unit(unit):
@@ -379,8 +382,8 @@ def run_unit(unit):
                         "shape": shp, "per_obs": per_obs, "flag": flag, "dist_params": params0}
                 if first:
                     case["note"] = True
-                run_case(res, rec, case, spec, opt, params0, lattice)
+                walk = run_case(res, rec, case, spec, opt, params0, lattice)
                 if first:
-                    res.sample(case)
+                    res.sample({**case, "walk": walk})
                 first = False
     return res
